@@ -11,6 +11,7 @@ import (
 	"os/exec"
 	"path/filepath"
 	"sort"
+	"strconv"
 	"strings"
 	"sync"
 	"time"
@@ -633,14 +634,23 @@ func (d *Driver) crossRun(e Engine, a *agg) (int, string) {
 	return len(keys), ""
 }
 
+// detSamples is the number of runs re-executed under GOMAXPROCS 1, 4 and 16 by the determinism
+// self-test of every check (VERIF_DET raises it for a dedicated self-test).
+func detSamples() int {
+	if v, err := strconv.Atoi(os.Getenv("VERIF_DET")); err == nil && v > 0 {
+		return v
+	}
+	return 24
+}
+
 func (d *Driver) determinismSample(e Engine, n, done int) (int, string) {
 	checked := 0
 	var idxs []int
 	for i := 0; i < n && i < done; i++ {
-		if SplitMix(uint64(d.Seed), uint64(i))%40 == 0 {
+		if SplitMix(uint64(d.Seed), uint64(i))%40 == 0 || detSamples() > 24 {
 			idxs = append(idxs, i)
 		}
-		if len(idxs) >= 24 {
+		if len(idxs) >= detSamples() {
 			break
 		}
 	}
